@@ -87,6 +87,7 @@ fn main() {
         "stallguard" => run_engine(engines::stallguard::StallGuardEngine::new(), mode, rest),
         "weakfilter" => run_engine(engines::weakfilter::WeakFilterEngine::new(), mode, rest),
         "registration" => run_engine(engines::registration::RegistrationEngine::new(), mode, rest),
+        "linkcc" => run_engine(engines::linkcc::LinkCcEngine::new(), mode, rest),
         _ => {
             eprintln!("unknown engine {engine}");
             std::process::exit(2)
